@@ -314,8 +314,8 @@ func TestC11Soups(t *testing.T) {
 	}
 	enumSoups(soupLarge, maxLen, env.Shard, env.NShards, func(soup string) { one(soup, soupContexts) })
 	enumSoups(soupOps, env.Pick(3, 4), env.Shard, env.NShards, func(soup string) { one(soup, soupOpContexts) })
-	nw := enumDictionary(env.Pick(3, 4), env.Shard, env.NShards, func(src string) { one(src, []string{"%s"}) })
-	st.Note("plus the source dictionary: each of the %d words found as string literals in the parser and compiler sources followed by every sequence of <= %d tokens over %q, spliced into %q", nw, env.Pick(3, 4), dictTail, dictContexts)
+	nw := enumDictionary(env.Pick(4, 5), env.Shard, env.NShards, func(src string) { one(src, []string{"%s"}) })
+	st.Note("plus the source dictionary: each of the %d words found as string literals in the parser and compiler sources followed by every sequence of <= %d tokens over %q, spliced into %q", nw, env.Pick(4, 5), dictTail, dictContexts)
 }
 
 // TestC11Huge: statements of tens of thousands to millions of nodes: every
